@@ -23,7 +23,7 @@ type SemOpts struct {
 	Input       []string
 	StopAt      int // yield index at which the platform raises the stop flag; -1 = never
 	FailFast    bool
-	AfterYield  bool // model option: test the flag after the yield as well (corrected order)
+	BeforeOnly  bool // model option: test the stop flag only before the yield (the code before the fix)
 	Events      []SemEvent
 	YieldBudget int
 	Fuel        int
@@ -53,7 +53,7 @@ func ImplRun(src string, o SemOpts) (out SemRun) {
 	}
 	y := &budgetYielder{budget: budget}
 	plat := &recPlatform{yielder: y, Input: append([]string(nil), o.Input...)}
-	prog, err := parser.Parse(src, evaluator.BuiltinDecls())
+	prog, err := safeParse(src)
 	if err != nil {
 		out.ParseErr = err.Error()
 		return
@@ -139,7 +139,7 @@ func semCaseSX(prog *parser.Program, o SemOpts) (SX, error) {
 	if fuel == 0 {
 		fuel = 4000
 	}
-	return Lst(p, stop, LstOf(inp), Bool(o.FailFast), Bool(o.AfterYield), Int(int64(fuel)), LstOf(evs)), nil
+	return Lst(p, stop, LstOf(inp), Bool(o.FailFast), Bool(!o.BeforeOnly), Int(int64(fuel)), LstOf(evs)), nil
 }
 
 func fmtFloat(bits string) string {
@@ -351,4 +351,15 @@ func CorpusPrograms() []string {
 		return nil
 	})
 	return out
+}
+
+// safeParse runs parser.Parse under recover; a Go panic inside the parser is
+// reported as an error whose text starts with "gopanic:".
+func safeParse(src string) (prog *parser.Program, err error) {
+	defer func() {
+		if r := recover(); r != nil {
+			prog, err = nil, fmt.Errorf("gopanic: %v", r)
+		}
+	}()
+	return parser.Parse(src, evaluator.BuiltinDecls())
 }
